@@ -50,6 +50,11 @@ def cases(tier):
             for core in (1, 7):
                 for d in ('d2', 'd3'):
                     out.append(dict(base, design=d, gapfrac=gf, core=core, re='trans'))
+        # several assemblies of one type with different flows, limited by an assembly (not the gap)
+        for d in ('d2', 'd3'):
+            for re in ('lam', 'trans', 'turb'):
+                for wall, gf in (('none', None), ('flow', 0.6)):
+                    out.append(dict(base, design=d, core=7, re=re, wall=wall, gapfrac=gf))
         for ca in (True,):
             for du in ('1', '2f'):
                 for re in ('vlow', 'lam'):
@@ -127,8 +132,9 @@ def build(c, power):
     if c.get('core', 1) == 7:
         a0 = scn['assign'][0]
         flow = a0[3]['flowrate']
+        # same type, different flows; the lowest flow is not in the first position
         scn['assign'] = [['A', 1, 1, {'flowrate': flow}]] + \
-            [['A', 2, p, {'flowrate': flow * (0.6 + 0.1 * p)}] for p in range(1, 7)]
+            [['A', 2, p, {'flowrate': flow * f}] for p, f in zip(range(1, 7), (0.8, 0.35, 0.9, 0.6, 1.2, 0.5))]
         spec = scn['power']['asm']['1']
         scn['power']['asm'] = {str(i + 1): dict(spec, seed=i) for i in range(7)}
     return scn
@@ -291,8 +297,8 @@ def run_case(c):
             temps = [T0, 0.5 * (T0 + tout), tout]
         info = {'dz_sel': dz_sel, 'limiters': codes, 'self_min': {}}
         for ai, a in enumerate(rx.assemblies):
-            if ai > 0 and c.get('core', 1) == 7 and ai not in (1, 4):
-                continue        # identical clones differ only by flow: probe three of them
+            if ai > 0 and c.get('core', 1) == 7 and ai not in (2, 4):
+                continue        # clones differ only by flow: probe the centre, the lowest-flow one and one more
             own = min(0.01, floor6(mins[ai]))
             # every region also at the limit it reports for itself (the step
             # selected when that region is the limiting one of the problem)
